@@ -485,6 +485,10 @@ func driveRecover(c *ctx) {
 	}
 }
 
+func peerOf(rng *rand.Rand) *secec.PublicKey {
+	return privFrom(add(randBig(rng, add(bigN, -1)), 1)).PublicKey()
+}
+
 type errReader struct{}
 
 func (errReader) Read([]byte) (int, error) { return 0, errors.New("boom") }
@@ -580,6 +584,51 @@ func driveKeys(c *ctx) {
 		}
 		c.E("key.PublicFromPoint", "p", ptRaw(p), "ok", err == nil, "unc", u, "cmp", cm)
 	}
+	// key objects are immutable: scribble over everything handed out or passed in, then use the keys again
+	for i := 0; i < c.scale(6, 60); i++ {
+		d := add(randBig(rng, add(bigN, -1)), 1)
+		in := append([]byte{}, be32(d)[:]...)
+		k, err := secec.NewPrivateKey(in)
+		if err != nil {
+			panic(err)
+		}
+		dg := sha256Sum([]byte{byte(i)})
+		sig1, _ := k.Sign(secec.RFC6979SHA256(), dg, nil)
+		kb1, pb1, pc1, pa1, pp1 := hx(k.Bytes()), hx(k.PublicKey().Bytes()), hx(k.PublicKey().CompressedBytes()), hx(k.PublicKey().ASN1Bytes()), hx(k.PublicKey().Point().UncompressedBytes())
+		sh1, _ := k.ECDH(peerOf(rng))
+		_ = sh1
+		for j := range in {
+			in[j] ^= 0x5a
+		}
+		for _, sl := range [][]byte{k.Bytes(), k.PublicKey().Bytes(), k.PublicKey().CompressedBytes(), k.PublicKey().ASN1Bytes()} {
+			for j := range sl {
+				sl[j] ^= 0xa5
+			}
+		}
+		sc := k.Scalar()
+		sc.Add(sc, sc)
+		pt := k.PublicKey().Point()
+		pt.Double(pt)
+		// constructors taking objects: the key must not keep the caller's scalar / point / slice
+		s2 := scFrom(d)
+		k2, _ := secec.NewPrivateKeyFromScalar(s2)
+		s2.Add(s2, s2)
+		src := k.PublicKey().Point()
+		q2, _ := secec.NewPublicKeyFromPoint(src)
+		src.Add(src, src)
+		inp := k.PublicKey().Bytes()
+		q3, _ := secec.NewPublicKey(inp)
+		for j := range inp {
+			inp[j] = 0
+		}
+		sig2, _ := k.Sign(secec.RFC6979SHA256(), dg, nil)
+		copies := k2 != nil && hx(k2.Bytes()) == kb1 && q2 != nil && hx(q2.Bytes()) == pb1 && q3 != nil && hx(q3.Bytes()) == pb1 &&
+			hx(q2.Point().UncompressedBytes()) == pb1 && q3.Verify(dg, sig1, nil) && q2.Verify(dg, sig1, nil)
+		c.E("key.Immutable", "d", h32(d), "kb1", kb1, "kb2", hx(k.Bytes()), "pb1", pb1, "pb2", hx(k.PublicKey().Bytes()), "pc1", pc1, "pc2", hx(k.PublicKey().CompressedBytes()),
+			"pa1", pa1, "pa2", hx(k.PublicKey().ASN1Bytes()), "pp1", pp1, "pp2", hx(k.PublicKey().Point().UncompressedBytes()),
+			"sig1", hx(sig1), "sig2", hx(sig2), "copies_ok", copies, "verify_after", k.PublicKey().Verify(dg, sig1, nil))
+	}
+
 	// ECDH
 	ks := []*big.Int{big.NewInt(1), add(bigN, -1), big.NewInt(2)}
 	for i := 0; i < c.scale(10, 150); i++ {
